@@ -253,9 +253,9 @@ def scn_activity(T, case):
     ao, ac = f(cfg, objective_weights=ow, constraint_weights=cw)
     for r in range(R):
         for j in range(J):
-            T.prove("C06.activity.split_gradient.active_iff_in_force_weight_non_zero", T.all([T.implies(ao[j, r], ~(ow[j, r] == 0) if T.symbolic else ow[j, r] != 0), T.implies(ow[j, r] == 0, ~ao[j, r] if T.symbolic else not ao[j, r])]))
+            T.prove("C06.activity.split_gradient.active_iff_in_force_weight_non_zero", T.all([T.implies(~ao[j, r] if T.symbolic else not ao[j, r], ow[j, r] == 0), T.implies(ow[j, r] == 0, ~ao[j, r] if T.symbolic else not ao[j, r])]))
         for k in range(K):
-            T.prove("C06.activity.split_gradient.active_iff_in_force_weight_non_zero", T.all([T.implies(ac[k, r], ~(cw[k, r] == 0) if T.symbolic else cw[k, r] != 0), T.implies(cw[k, r] == 0, ~ac[k, r] if T.symbolic else not ac[k, r])]))
+            T.prove("C06.activity.split_gradient.active_iff_in_force_weight_non_zero", T.all([T.implies(~ac[k, r] if T.symbolic else not ac[k, r], cw[k, r] == 0), T.implies(cw[k, r] == 0, ~ac[k, r] if T.symbolic else not ac[k, r])]))
 
 
 # ------------------------------------------------------------------------------------ activity flags as the evaluator sees them
